@@ -454,7 +454,8 @@ func projectionsOf(human, impl, model string) []string {
 		}
 		var ps []string
 		if a[0] == "fail" && a[1] != b[1] {
-			ps = append(ps, "class")
+			// different failures: the traces differ as a consequence
+			return []string{"class"}
 		}
 		if a[0] == "ok" && a[1] != b[1] {
 			if skeleton(a[1]) != skeleton(b[1]) {
@@ -464,6 +465,9 @@ func projectionsOf(human, impl, model string) []string {
 		}
 		if filterEvents(a[2], "call") != filterEvents(b[2], "call") {
 			ps = append(ps, "calls")
+			if callNames(a[2]) != callNames(b[2]) {
+				ps = append(ps, "callnames")
+			}
 		}
 		if filterEvents(a[2], "print") != filterEvents(b[2], "print") {
 			ps = append(ps, "prints")
@@ -478,4 +482,18 @@ func projectionsOf(human, impl, model string) []string {
 		return []string{"verify"}
 	}
 	return []string{"all"}
+}
+
+// callNames: the sequence of invoked host functions without their arguments.
+func callNames(evs string) string {
+	var xs []string
+	for _, e := range splitTop(evs) {
+		if strings.HasPrefix(e, "(call ") {
+			parts := splitTop(e)
+			if len(parts) >= 2 {
+				xs = append(xs, parts[1])
+			}
+		}
+	}
+	return strings.Join(xs, " ")
 }
